@@ -84,6 +84,9 @@ impl Item {
     }
 }
 
+/// Everything the scheduler can do to one real iterator. "in place" operations go through
+/// `by_ref()` and advance the handle; "by value" operations (`v_*`) consume a clone, because
+/// `last`, `count`, `fold`, ... take `self` and an override of them is only reachable that way.
 pub trait IterHandle {
     fn next(&mut self) -> Item;
     fn next_back(&mut self) -> Item;
@@ -96,11 +99,27 @@ pub trait IterHandle {
     fn step_by_take(&mut self, step: usize, take: usize) -> Vec<Item>;
     fn rev_nth(&mut self, k: usize) -> Item;
     fn rev_skip_next(&mut self, k: usize) -> Item;
-    fn last(&mut self) -> Item;
-    fn count(&mut self) -> usize;
-    /// remaining items front to back, computed on a clone
+    fn drain_last(&mut self) -> Item;
+    fn drain_count(&mut self) -> usize;
+    // adapters whose back end depends on an exact len()
+    fn take_back(&mut self, k: usize) -> Item;
+    fn skip_back(&mut self, k: usize) -> Item;
+    fn enumerate_back(&mut self) -> Option<(usize, Item)>;
+    fn step_by_back(&mut self, step: usize) -> Item;
+    // by value, on a clone
+    fn v_last(&self) -> Item;
+    fn v_count(&self) -> usize;
+    fn v_fold(&self) -> Vec<Item>;
+    fn v_rfold(&self) -> Vec<Item>;
+    fn v_collect(&self) -> Vec<Item>;
+    fn v_rev_collect(&self) -> Vec<Item>;
+    fn v_position(&self, target: usize) -> Option<usize>;
+    fn v_rposition(&self, target: usize) -> Option<usize>;
+    fn v_find(&self, target: usize) -> Item;
+    fn v_rfind(&self, target: usize) -> Item;
+    /// remaining items front to back, pulled one by one from a clone (bounded)
     fn rest(&self) -> Vec<Item>;
-    /// remaining items back to front, computed on a clone
+    /// remaining items back to front, pulled one by one from a clone (bounded)
     fn rest_rev(&self) -> Vec<Item>;
     fn debug_fmt(&self) -> String;
 }
@@ -119,6 +138,12 @@ impl<E: IntoEnumIterator + PartialEq + Debug + 'static> H<E> {
                 None => Item::Alien(format!("{:?}", v)),
             },
         }
+    }
+    fn ids(&self, v: Vec<E>) -> Vec<Item> {
+        v.into_iter().map(|e| self.id(Some(e))).collect()
+    }
+    fn is(&self, e: &E, target: usize) -> bool {
+        target < self.exp.len() && *e == self.exp[target]
     }
 }
 
@@ -158,7 +183,7 @@ where
     }
     fn step_by_take(&mut self, step: usize, take: usize) -> Vec<Item> {
         let v: Vec<E> = self.it.by_ref().step_by(step).take(take).collect();
-        v.into_iter().map(|e| self.id(Some(e))).collect()
+        self.ids(v)
     }
     fn rev_nth(&mut self, k: usize) -> Item {
         let x = self.it.by_ref().rev().nth(k);
@@ -168,12 +193,75 @@ where
         let x = self.it.by_ref().rev().skip(k).next();
         self.id(x)
     }
-    fn last(&mut self) -> Item {
+    fn drain_last(&mut self) -> Item {
         let x = self.it.by_ref().last();
         self.id(x)
     }
-    fn count(&mut self) -> usize {
+    fn drain_count(&mut self) -> usize {
         self.it.by_ref().count()
+    }
+    fn take_back(&mut self, k: usize) -> Item {
+        let x = self.it.by_ref().take(k).next_back();
+        self.id(x)
+    }
+    fn skip_back(&mut self, k: usize) -> Item {
+        let x = self.it.by_ref().skip(k).next_back();
+        self.id(x)
+    }
+    fn enumerate_back(&mut self) -> Option<(usize, Item)> {
+        let x = self.it.by_ref().enumerate().next_back();
+        x.map(|(i, e)| (i, self.id(Some(e))))
+    }
+    fn step_by_back(&mut self, step: usize) -> Item {
+        let x = self.it.by_ref().step_by(step).next_back();
+        self.id(x)
+    }
+    fn v_last(&self) -> Item {
+        let x = self.it.clone().last();
+        self.id(x)
+    }
+    fn v_count(&self) -> usize {
+        self.it.clone().count()
+    }
+    fn v_fold(&self) -> Vec<Item> {
+        let v = self.it.clone().fold(Vec::new(), |mut a, e| {
+            if a.len() <= self.exp.len() + 2 {
+                a.push(e);
+            }
+            a
+        });
+        self.ids(v)
+    }
+    fn v_rfold(&self) -> Vec<Item> {
+        let v = self.it.clone().rfold(Vec::new(), |mut a, e| {
+            if a.len() <= self.exp.len() + 2 {
+                a.push(e);
+            }
+            a
+        });
+        self.ids(v)
+    }
+    fn v_collect(&self) -> Vec<Item> {
+        let v: Vec<E> = self.it.clone().take(self.exp.len() + 2).collect();
+        self.ids(v)
+    }
+    fn v_rev_collect(&self) -> Vec<Item> {
+        let v: Vec<E> = self.it.clone().rev().take(self.exp.len() + 2).collect();
+        self.ids(v)
+    }
+    fn v_position(&self, target: usize) -> Option<usize> {
+        self.it.clone().position(|e| self.is(&e, target))
+    }
+    fn v_rposition(&self, target: usize) -> Option<usize> {
+        self.it.clone().rposition(|e| self.is(&e, target))
+    }
+    fn v_find(&self, target: usize) -> Item {
+        let x = self.it.clone().find(|e| self.is(e, target));
+        self.id(x)
+    }
+    fn v_rfind(&self, target: usize) -> Item {
+        let x = self.it.clone().rfind(|e| self.is(e, target));
+        self.id(x)
     }
     fn rest(&self) -> Vec<Item> {
         // bounded: a broken iterator must not hang the simulator
@@ -220,7 +308,8 @@ pub struct Case {
 }
 
 // ------------------------------------------------------------------------------------------
-// Reference model.
+// Reference model: only `next` and `next_back` are written here; every other operation is core's
+// default method or adapter applied to the model.
 
 #[derive(Clone, Debug)]
 pub struct Model {
@@ -263,87 +352,116 @@ fn mi(x: Option<usize>) -> Item {
 // ------------------------------------------------------------------------------------------
 // Operations.
 
-#[derive(Clone, Debug, PartialEq)]
-pub enum Op {
-    Next(usize),
-    NextBack(usize),
-    Nth(usize, usize),
-    NthBack(usize, usize),
-    Len(usize),
-    SizeHint(usize),
-    Clone(usize),
-    Drop(usize),
-    SkipNext(usize, usize),
-    StepBy(usize, usize, usize),
-    RevNth(usize, usize),
-    RevSkipNext(usize, usize),
-    Last(usize),
-    Count(usize),
-    DebugFmt(usize),
-    /// `E::iter()` again: a fresh handle (replaces handle h when MAX_HANDLES are live)
-    Iter(usize),
+#[derive(Clone, Copy, Debug, PartialEq, Eq)]
+pub enum Kind {
+    Next,
+    NextBack,
+    Nth,
+    NthBack,
+    Len,
+    SizeHint,
+    Clone,
+    Drop,
+    SkipNext,
+    StepBy,
+    RevNth,
+    RevSkipNext,
+    DrainLast,
+    DrainCount,
+    DebugFmt,
+    Iter,
+    TakeBack,
+    SkipBack,
+    EnumerateBack,
+    StepByBack,
+    VLast,
+    VCount,
+    VFold,
+    VRfold,
+    VCollect,
+    VRevCollect,
+    VPosition,
+    VRposition,
+    VFind,
+    VRfind,
 }
 
-pub const OP_KINDS: &[&str] = &[
-    "next", "next_back", "nth", "nth_back", "len", "size_hint", "clone", "drop", "skip_next", "step_by",
-    "rev_nth", "rev_skip_next", "last", "count", "debug_fmt", "iter",
+/// (kind, script name, takes k, takes t)
+pub const KINDS: &[(Kind, &str, bool, bool)] = &[
+    (Kind::Next, "next", false, false),
+    (Kind::NextBack, "next_back", false, false),
+    (Kind::Nth, "nth", true, false),
+    (Kind::NthBack, "nth_back", true, false),
+    (Kind::Len, "len", false, false),
+    (Kind::SizeHint, "size_hint", false, false),
+    (Kind::Clone, "clone", false, false),
+    (Kind::Drop, "drop", false, false),
+    (Kind::SkipNext, "skip_next", true, false),
+    (Kind::StepBy, "step_by", true, true),
+    (Kind::RevNth, "rev_nth", true, false),
+    (Kind::RevSkipNext, "rev_skip_next", true, false),
+    (Kind::DrainLast, "last", false, false),
+    (Kind::DrainCount, "count", false, false),
+    (Kind::DebugFmt, "debug_fmt", false, false),
+    (Kind::Iter, "iter", false, false),
+    (Kind::TakeBack, "take_back", true, false),
+    (Kind::SkipBack, "skip_back", true, false),
+    (Kind::EnumerateBack, "enumerate_back", false, false),
+    (Kind::StepByBack, "step_by_back", true, false),
+    (Kind::VLast, "v_last", false, false),
+    (Kind::VCount, "v_count", false, false),
+    (Kind::VFold, "v_fold", false, false),
+    (Kind::VRfold, "v_rfold", false, false),
+    (Kind::VCollect, "v_collect", false, false),
+    (Kind::VRevCollect, "v_rev_collect", false, false),
+    (Kind::VPosition, "v_position", true, false),
+    (Kind::VRposition, "v_rposition", true, false),
+    (Kind::VFind, "v_find", true, false),
+    (Kind::VRfind, "v_rfind", true, false),
 ];
 
+#[derive(Clone, Debug, PartialEq)]
+pub struct Op {
+    pub kind: Kind,
+    pub h: usize,
+    pub k: usize,
+    pub t: usize,
+}
+
 impl Op {
-    pub fn kind(&self) -> usize {
-        match self {
-            Op::Next(_) => 0,
-            Op::NextBack(_) => 1,
-            Op::Nth(..) => 2,
-            Op::NthBack(..) => 3,
-            Op::Len(_) => 4,
-            Op::SizeHint(_) => 5,
-            Op::Clone(_) => 6,
-            Op::Drop(_) => 7,
-            Op::SkipNext(..) => 8,
-            Op::StepBy(..) => 9,
-            Op::RevNth(..) => 10,
-            Op::RevSkipNext(..) => 11,
-            Op::Last(_) => 12,
-            Op::Count(_) => 13,
-            Op::DebugFmt(_) => 14,
-            Op::Iter(_) => 15,
-        }
+    pub fn new(kind: Kind, h: usize) -> Op {
+        Op { kind, h, k: 0, t: 0 }
     }
-    pub fn handle(&self) -> usize {
-        match self {
-            Op::Next(h) | Op::NextBack(h) | Op::Len(h) | Op::SizeHint(h) | Op::Clone(h) | Op::Drop(h)
-            | Op::Last(h) | Op::Count(h) | Op::DebugFmt(h) | Op::Iter(h) => *h,
-            Op::Nth(h, _) | Op::NthBack(h, _) | Op::SkipNext(h, _) | Op::RevNth(h, _) | Op::RevSkipNext(h, _) => *h,
-            Op::StepBy(h, _, _) => *h,
-        }
+    pub fn with(kind: Kind, h: usize, k: usize) -> Op {
+        let k = if matches!(kind, Kind::StepBy | Kind::StepByBack) { k.max(1) } else { k };
+        Op { kind, h, k, t: 0 }
     }
-    pub fn k(&self) -> Option<usize> {
-        match self {
-            Op::Nth(_, k) | Op::NthBack(_, k) | Op::SkipNext(_, k) | Op::RevNth(_, k) | Op::RevSkipNext(_, k) => Some(*k),
-            Op::StepBy(_, k, _) => Some(*k),
-            _ => None,
-        }
+    pub fn idx(&self) -> usize {
+        KINDS.iter().position(|e| e.0 == self.kind).unwrap()
     }
-    pub fn with_k(&self, k: usize) -> Op {
-        match self {
-            Op::Nth(h, _) => Op::Nth(*h, k),
-            Op::NthBack(h, _) => Op::NthBack(*h, k),
-            Op::SkipNext(h, _) => Op::SkipNext(*h, k),
-            Op::RevNth(h, _) => Op::RevNth(*h, k),
-            Op::RevSkipNext(h, _) => Op::RevSkipNext(*h, k),
-            Op::StepBy(h, _, t) => Op::StepBy(*h, k.max(1), *t),
-            o => o.clone(),
+    pub fn name(&self) -> &'static str {
+        KINDS[self.idx()].1
+    }
+    pub fn has_k(&self) -> bool {
+        KINDS[self.idx()].2
+    }
+    /// k arguments that are *counts* (where "huge" means something); targets of find/position are not
+    pub fn k_is_count(&self) -> bool {
+        self.has_k() && !matches!(self.kind, Kind::VPosition | Kind::VRposition | Kind::VFind | Kind::VRfind)
+    }
+    pub fn kopt(&self) -> Option<usize> {
+        if self.k_is_count() {
+            Some(self.k)
+        } else {
+            None
         }
     }
     pub fn line(&self) -> String {
-        let name = OP_KINDS[self.kind()];
-        match self {
-            Op::StepBy(h, k, t) => format!("{} {} {} {}", name, h, k, t),
-            o => match o.k() {
-                Some(k) => format!("{} {} {}", name, o.handle(), k),
-                None => format!("{} {}", name, o.handle()),
-            },
+        let e = &KINDS[self.idx()];
+        match (e.2, e.3) {
+            (true, true) => format!("{} {} {} {}", e.1, self.h, self.k, self.t),
+            (true, false) => format!("{} {} {}", e.1, self.h, self.k),
+            _ => format!("{} {}", e.1, self.h),
         }
     }
     pub fn parse(line: &str) -> Result<Op, String> {
@@ -354,25 +472,18 @@ impl Op {
         if p.is_empty() {
             return Err("empty op".into());
         }
-        Ok(match p[0] {
-            "next" => Op::Next(num(1)?),
-            "next_back" => Op::NextBack(num(1)?),
-            "nth" => Op::Nth(num(1)?, num(2)?),
-            "nth_back" => Op::NthBack(num(1)?, num(2)?),
-            "len" => Op::Len(num(1)?),
-            "size_hint" => Op::SizeHint(num(1)?),
-            "clone" => Op::Clone(num(1)?),
-            "drop" => Op::Drop(num(1)?),
-            "skip_next" => Op::SkipNext(num(1)?, num(2)?),
-            "step_by" => Op::StepBy(num(1)?, num(2)?.max(1), num(3)?),
-            "rev_nth" => Op::RevNth(num(1)?, num(2)?),
-            "rev_skip_next" => Op::RevSkipNext(num(1)?, num(2)?),
-            "last" => Op::Last(num(1)?),
-            "count" => Op::Count(num(1)?),
-            "debug_fmt" => Op::DebugFmt(num(1)?),
-            "iter" => Op::Iter(num(1)?),
-            other => return Err(format!("unknown op {:?}", other)),
-        })
+        let e = KINDS.iter().find(|e| e.1 == p[0]).ok_or(format!("unknown op {:?}", p[0]))?;
+        let mut op = Op::new(e.0, num(1)?);
+        if e.2 {
+            op.k = num(2)?;
+            if matches!(e.0, Kind::StepBy | Kind::StepByBack) {
+                op.k = op.k.max(1);
+            }
+        }
+        if e.3 {
+            op.t = num(3)?;
+        }
+        Ok(op)
     }
 }
 
@@ -384,42 +495,47 @@ fn ksize(k: Option<usize>) -> &'static str {
     }
 }
 
-// counters / reach probes
+// counters: fault kinds / reach probes first, then one counter per operation kind (OP0 + Op::idx())
 pub const NAMES: &[&str] = &[
-    "op_next", "op_next_back", "op_nth", "op_nth_back", "op_len", "op_size_hint", "op_clone", "op_drop",
-    "op_skip_next", "op_step_by", "op_rev_nth", "op_rev_skip_next", "op_last", "op_count", "op_debug_fmt",
     "fault_huge_n_fresh", "fault_huge_n_after_front", "fault_huge_n_after_back", "fault_huge_n_after_both",
     "fault_huge_n_from_back", "probe_nth_past_end_with_back_consumed", "probe_next_back_after_front_exhausted",
     "probe_next_after_back_exhausted", "probe_op_after_exhaustion", "probe_clone_after_next_back",
     "probe_adapter_skip_huge", "probe_adapter_step_by_huge", "probe_n_equals_remaining",
     "probe_n_equals_remaining_minus_1", "probe_n_equals_remaining_plus_1", "probe_clone_diverged",
     "probe_meet_in_middle", "probe_run_with_huge", "probe_run_without_huge", "probe_empty_enum_run",
-    "probe_yielded_some", "probe_yielded_none", "op_iter", "probe_run_started_at_random_cursor_state",
+    "probe_yielded_some", "probe_yielded_none", "probe_run_started_at_random_cursor_state",
+    "probe_len_dependent_adapter_after_both_ends_moved",
+    // --- per operation kind, same order as KINDS
+    "op_next", "op_next_back", "op_nth", "op_nth_back", "op_len", "op_size_hint", "op_clone", "op_drop", "op_skip_next",
+    "op_step_by", "op_rev_nth", "op_rev_skip_next", "op_last", "op_count", "op_debug_fmt", "op_iter", "op_take_back",
+    "op_skip_back", "op_enumerate_back", "op_step_by_back", "op_v_last", "op_v_count", "op_v_fold", "op_v_rfold",
+    "op_v_collect", "op_v_rev_collect", "op_v_position", "op_v_rposition", "op_v_find", "op_v_rfind",
 ];
-const C_HUGE_FRESH: usize = 15;
-const C_HUGE_FRONT: usize = 16;
-const C_HUGE_BACK: usize = 17;
-const C_HUGE_BOTH: usize = 18;
-const C_HUGE_FROM_BACK: usize = 19;
-const C_NTH_PAST_END_BACK: usize = 20;
-const C_NB_AFTER_FRONT_EXH: usize = 21;
-const C_N_AFTER_BACK_EXH: usize = 22;
-const C_OP_AFTER_EXH: usize = 23;
-const C_CLONE_AFTER_NB: usize = 24;
-const C_SKIP_HUGE: usize = 25;
-const C_STEP_HUGE: usize = 26;
-const C_N_EQ_REM: usize = 27;
-const C_N_EQ_REM_M1: usize = 28;
-const C_N_EQ_REM_P1: usize = 29;
-const C_CLONE_DIVERGED: usize = 30;
-const C_MEET: usize = 31;
-const C_RUN_HUGE: usize = 32;
-const C_RUN_NOHUGE: usize = 33;
-const C_EMPTY_RUN: usize = 34;
-const C_SOME: usize = 35;
-const C_NONE: usize = 36;
-const C_OP_ITER: usize = 37;
-pub const C_JUMP_START: usize = 38;
+const C_HUGE_FRESH: usize = 0;
+const C_HUGE_FRONT: usize = 1;
+const C_HUGE_BACK: usize = 2;
+const C_HUGE_BOTH: usize = 3;
+const C_HUGE_FROM_BACK: usize = 4;
+const C_NTH_PAST_END_BACK: usize = 5;
+const C_NB_AFTER_FRONT_EXH: usize = 6;
+const C_N_AFTER_BACK_EXH: usize = 7;
+const C_OP_AFTER_EXH: usize = 8;
+const C_CLONE_AFTER_NB: usize = 9;
+const C_SKIP_HUGE: usize = 10;
+const C_STEP_HUGE: usize = 11;
+const C_N_EQ_REM: usize = 12;
+const C_N_EQ_REM_M1: usize = 13;
+const C_N_EQ_REM_P1: usize = 14;
+const C_CLONE_DIVERGED: usize = 15;
+const C_MEET: usize = 16;
+const C_RUN_HUGE: usize = 17;
+const C_RUN_NOHUGE: usize = 18;
+const C_EMPTY_RUN: usize = 19;
+const C_SOME: usize = 20;
+const C_NONE: usize = 21;
+pub const C_JUMP_START: usize = 22;
+const C_LEN_ADAPTER_BOTH: usize = 23;
+const OP0: usize = 24;
 
 // ------------------------------------------------------------------------------------------
 // World: executes a script against real handles and the model, checking invariants.
@@ -435,7 +551,7 @@ pub struct Failure {
 impl Failure {
     pub fn signature(&self) -> String {
         match &self.op {
-            Some(o) => format!("{}:{}:{}", self.oracle, OP_KINDS[o.kind()], ksize(o.k())),
+            Some(o) => format!("{}:{}:{}", self.oracle, o.name(), ksize(o.kopt())),
             None => format!("{}:init:-", self.oracle),
         }
     }
@@ -519,29 +635,30 @@ impl<'a> Exec<'a> {
         for (si, op) in ops.iter().enumerate() {
             let step = si + 1;
             self.steps += 1;
-            let hi = op.handle() % slots.len();
+            let hi = op.h % slots.len();
             let (lo_b, hi_b) = (slots[hi].model.lo, slots[hi].model.hi);
             let rem = hi_b - lo_b;
             let front = lo_b;
             let back = n - hi_b;
-            self.trace.u(op.kind() as u64);
+            let kidx = op.idx();
+            self.trace.u(kidx as u64);
             self.trace.u(hi as u64);
-            if let Some(k) = op.k() {
-                self.trace.u(k as u64);
+            if op.has_k() {
+                self.trace.u(op.k as u64);
             }
             if let Some(st) = stats.as_deref_mut() {
-                st.hit(if op.kind() == 15 { C_OP_ITER } else { op.kind() });
+                st.hit(OP0 + kidx);
                 // state coverage: (N, front, back, op kind, k class)
-                let kc: u64 = match op.k() {
+                let kc: u64 = match op.kopt() {
                     None => 0,
                     Some(k) if k < rem => 1,
                     Some(k) if k == rem => 2,
                     Some(k) if k <= 64 => 3,
                     Some(_) => 4,
                 };
-                st.cover.insert(((n as u64) << 32) | ((front as u64) << 24) | ((back as u64) << 16) | ((op.kind() as u64) << 8) | kc);
-                if let Some(k) = op.k() {
-                    let from_back = matches!(op, Op::NthBack(..) | Op::RevNth(..) | Op::RevSkipNext(..));
+                st.cover.insert(((n as u64) << 32) | ((front as u64) << 24) | ((back as u64) << 16) | ((kidx as u64) << 8) | kc);
+                if let Some(k) = op.kopt() {
+                    let from_back = matches!(op.kind, Kind::NthBack | Kind::RevNth | Kind::RevSkipNext);
                     if k > 64 {
                         saw_huge = true;
                         if from_back {
@@ -553,14 +670,14 @@ impl<'a> Exec<'a> {
                             (false, true) => st.hit(C_HUGE_BACK),
                             (true, true) => st.hit(C_HUGE_BOTH),
                         }
-                        if matches!(op, Op::SkipNext(..) | Op::RevSkipNext(..)) {
+                        if matches!(op.kind, Kind::SkipNext | Kind::RevSkipNext | Kind::SkipBack) {
                             st.hit(C_SKIP_HUGE);
                         }
-                        if matches!(op, Op::StepBy(..)) {
+                        if matches!(op.kind, Kind::StepBy | Kind::StepByBack) {
                             st.hit(C_STEP_HUGE);
                         }
                     }
-                    if !matches!(op, Op::StepBy(..)) {
+                    if !matches!(op.kind, Kind::StepBy | Kind::StepByBack) {
                         if k == rem {
                             st.hit(C_N_EQ_REM);
                         }
@@ -570,21 +687,24 @@ impl<'a> Exec<'a> {
                         if k == rem + 1 {
                             st.hit(C_N_EQ_REM_P1);
                         }
-                        if matches!(op, Op::Nth(..) | Op::SkipNext(..)) && k >= rem && back > 0 {
+                        if matches!(op.kind, Kind::Nth | Kind::SkipNext) && k >= rem && back > 0 {
                             st.hit(C_NTH_PAST_END_BACK);
                         }
                     }
                 }
-                if rem == 0 && !matches!(op, Op::Clone(_) | Op::Drop(_) | Op::Iter(_)) {
+                if matches!(op.kind, Kind::TakeBack | Kind::SkipBack | Kind::EnumerateBack | Kind::StepByBack) && front > 0 && back > 0 {
+                    st.hit(C_LEN_ADAPTER_BOTH);
+                }
+                if rem == 0 && !matches!(op.kind, Kind::Clone | Kind::Drop | Kind::Iter) {
                     st.hit(C_OP_AFTER_EXH);
-                    if matches!(op, Op::NextBack(_) | Op::NthBack(..)) && front == n && n > 0 {
+                    if matches!(op.kind, Kind::NextBack | Kind::NthBack) && front == n && n > 0 {
                         st.hit(C_NB_AFTER_FRONT_EXH);
                     }
-                    if matches!(op, Op::Next(_) | Op::Nth(..)) && back == n && n > 0 {
+                    if matches!(op.kind, Kind::Next | Kind::Nth) && back == n && n > 0 {
                         st.hit(C_N_AFTER_BACK_EXH);
                     }
                 }
-                if matches!(op, Op::Clone(_)) && slots[hi].consumed_back {
+                if op.kind == Kind::Clone && slots[hi].consumed_back {
                     st.hit(C_CLONE_AFTER_NB);
                 }
                 if rem == 1 && front > 0 && back > 0 {
@@ -613,47 +733,10 @@ impl<'a> Exec<'a> {
                     }
                 }};
             }
-            match op {
-                Op::Next(_) => {
-                    let s = &mut slots[hi];
-                    item_op!(s.real.next(), s.model.next())
-                }
-                Op::NextBack(_) => {
-                    let s = &mut slots[hi];
-                    s.consumed_back = true;
-                    item_op!(s.real.next_back(), s.model.next_back())
-                }
-                Op::Nth(_, k) => {
-                    let s = &mut slots[hi];
-                    item_op!(s.real.nth(*k), s.model.nth(*k))
-                }
-                Op::NthBack(_, k) => {
-                    let s = &mut slots[hi];
-                    s.consumed_back = true;
-                    item_op!(s.real.nth_back(*k), s.model.nth_back(*k))
-                }
-                Op::SkipNext(_, k) => {
-                    let s = &mut slots[hi];
-                    item_op!(s.real.skip_next(*k), s.model.by_ref().skip(*k).next())
-                }
-                Op::RevNth(_, k) => {
-                    let s = &mut slots[hi];
-                    s.consumed_back = true;
-                    item_op!(s.real.rev_nth(*k), s.model.by_ref().rev().nth(*k))
-                }
-                Op::RevSkipNext(_, k) => {
-                    let s = &mut slots[hi];
-                    s.consumed_back = true;
-                    item_op!(s.real.rev_skip_next(*k), s.model.by_ref().rev().skip(*k).next())
-                }
-                Op::Last(_) => {
-                    let s = &mut slots[hi];
-                    item_op!(s.real.last(), s.model.by_ref().last())
-                }
-                Op::StepBy(_, k, t) => {
-                    let s = &mut slots[hi];
-                    let got = catch(|| s.real.step_by_take(*k, *t)).map_err(|p| fail("panic", "no panic".into(), format!("panic: {}", p)))?;
-                    let want: Vec<Item> = s.model.by_ref().step_by(*k).take(*t).map(Item::Some).collect();
+            macro_rules! list_op {
+                ($real:expr, $model:expr) => {{
+                    let got: Vec<Item> = catch(|| $real).map_err(|p| fail("panic", "no panic".into(), format!("panic: {}", p)))?;
+                    let want: Vec<Item> = $model;
                     for g in &got {
                         self.trace.u(g.code());
                     }
@@ -664,18 +747,98 @@ impl<'a> Exec<'a> {
                     if got != want {
                         return Err(fail("result", show_items(&want), show_items(&got)));
                     }
-                }
-                Op::Count(_) => {
-                    let s = &mut slots[hi];
-                    let got = catch(|| s.real.count()).map_err(|p| fail("panic", "no panic".into(), format!("panic: {}", p)))?;
-                    let want = s.model.by_ref().count();
-                    self.trace.u(got as u64);
-                    self.note(|| format!("{} -> {}", op.line(), got));
+                }};
+            }
+            macro_rules! num_op {
+                ($real:expr, $model:expr) => {{
+                    let got = catch(|| $real).map_err(|p| fail("panic", "no panic".into(), format!("panic: {}", p)))?;
+                    let want = $model;
+                    self.note(|| format!("{} -> {:?}", op.line(), got));
                     if got != want {
-                        return Err(fail("result", want.to_string(), got.to_string()));
+                        return Err(fail("result", format!("{:?}", want), format!("{:?}", got)));
+                    }
+                    got
+                }};
+            }
+            let k = op.k;
+            match op.kind {
+                Kind::Next => {
+                    let s = &mut slots[hi];
+                    item_op!(s.real.next(), s.model.next())
+                }
+                Kind::NextBack => {
+                    let s = &mut slots[hi];
+                    s.consumed_back = true;
+                    item_op!(s.real.next_back(), s.model.next_back())
+                }
+                Kind::Nth => {
+                    let s = &mut slots[hi];
+                    item_op!(s.real.nth(k), s.model.nth(k))
+                }
+                Kind::NthBack => {
+                    let s = &mut slots[hi];
+                    s.consumed_back = true;
+                    item_op!(s.real.nth_back(k), s.model.nth_back(k))
+                }
+                Kind::SkipNext => {
+                    let s = &mut slots[hi];
+                    item_op!(s.real.skip_next(k), s.model.by_ref().skip(k).next())
+                }
+                Kind::RevNth => {
+                    let s = &mut slots[hi];
+                    s.consumed_back = true;
+                    item_op!(s.real.rev_nth(k), s.model.by_ref().rev().nth(k))
+                }
+                Kind::RevSkipNext => {
+                    let s = &mut slots[hi];
+                    s.consumed_back = true;
+                    item_op!(s.real.rev_skip_next(k), s.model.by_ref().rev().skip(k).next())
+                }
+                Kind::DrainLast => {
+                    let s = &mut slots[hi];
+                    item_op!(s.real.drain_last(), s.model.by_ref().last())
+                }
+                Kind::TakeBack => {
+                    let s = &mut slots[hi];
+                    s.consumed_back = true;
+                    item_op!(s.real.take_back(k), s.model.by_ref().take(k).next_back())
+                }
+                Kind::SkipBack => {
+                    let s = &mut slots[hi];
+                    s.consumed_back = true;
+                    item_op!(s.real.skip_back(k), s.model.by_ref().skip(k).next_back())
+                }
+                Kind::StepByBack => {
+                    let s = &mut slots[hi];
+                    s.consumed_back = true;
+                    item_op!(s.real.step_by_back(k), s.model.by_ref().step_by(k).next_back())
+                }
+                Kind::EnumerateBack => {
+                    let s = &mut slots[hi];
+                    s.consumed_back = true;
+                    let got = catch(|| s.real.enumerate_back()).map_err(|p| fail("panic", "no panic".into(), format!("panic: {}", p)))?;
+                    let want = s.model.by_ref().enumerate().next_back().map(|(i, x)| (i, Item::Some(x)));
+                    self.note(|| format!("{} -> {:?}", op.line(), got));
+                    if let Some((i, it)) = &got {
+                        self.trace.u(*i as u64);
+                        self.trace.u(it.code());
+                        self.nontrivial = true;
+                    }
+                    if got != want {
+                        return Err(fail("result", format!("{:?}", want), format!("{:?}", got)));
                     }
                 }
-                Op::Len(_) => {
+                Kind::StepBy => {
+                    let s = &mut slots[hi];
+                    let t = op.t;
+                    list_op!(s.real.step_by_take(k, t), s.model.by_ref().step_by(k).take(t).map(Item::Some).collect())
+                }
+                Kind::DrainCount => {
+                    let s = &mut slots[hi];
+                    let g = num_op!(s.real.drain_count(), s.model.by_ref().count());
+                    self.trace.u(g as u64);
+                }
+                Kind::Len => {
                     let s = &slots[hi];
                     let got = catch(|| s.real.len()).map_err(|p| fail("panic", "no panic".into(), format!("panic: {}", p)))?;
                     self.note(|| format!("{} -> {}", op.line(), got));
@@ -684,7 +847,7 @@ impl<'a> Exec<'a> {
                         return Err(fail("len", s.model.len().to_string(), got.to_string()));
                     }
                 }
-                Op::SizeHint(_) => {
+                Kind::SizeHint => {
                     let s = &slots[hi];
                     let got = catch(|| s.real.size_hint()).map_err(|p| fail("panic", "no panic".into(), format!("panic: {}", p)))?;
                     self.note(|| format!("{} -> {:?}", op.line(), got));
@@ -694,12 +857,61 @@ impl<'a> Exec<'a> {
                         return Err(fail("size_hint", format!("({}, Some({}))", l, l), format!("{:?}", got)));
                     }
                 }
-                Op::DebugFmt(_) => {
+                Kind::DebugFmt => {
                     let s = &slots[hi];
                     let got = catch(|| s.real.debug_fmt()).map_err(|p| fail("panic", "no panic".into(), format!("panic: {}", p)))?;
                     self.note(|| format!("{} -> {:?}", op.line(), got));
                 }
-                Op::Clone(_) => {
+                Kind::VLast => {
+                    let s = &slots[hi];
+                    item_op!(s.real.v_last(), s.model.clone().last())
+                }
+                Kind::VCount => {
+                    let s = &slots[hi];
+                    let g = num_op!(s.real.v_count(), s.model.clone().count());
+                    self.trace.u(g as u64);
+                }
+                Kind::VFold => {
+                    let s = &slots[hi];
+                    list_op!(s.real.v_fold(), s.model.clone().fold(Vec::new(), |mut a, x| {
+                        a.push(Item::Some(x));
+                        a
+                    }))
+                }
+                Kind::VRfold => {
+                    let s = &slots[hi];
+                    list_op!(s.real.v_rfold(), s.model.clone().rfold(Vec::new(), |mut a, x| {
+                        a.push(Item::Some(x));
+                        a
+                    }))
+                }
+                Kind::VCollect => {
+                    let s = &slots[hi];
+                    list_op!(s.real.v_collect(), s.model.clone().map(Item::Some).collect())
+                }
+                Kind::VRevCollect => {
+                    let s = &slots[hi];
+                    list_op!(s.real.v_rev_collect(), s.model.clone().rev().map(Item::Some).collect())
+                }
+                Kind::VPosition => {
+                    let s = &slots[hi];
+                    let g = num_op!(s.real.v_position(k), s.model.clone().position(|x| x == k));
+                    self.trace.u(g.map(|x| x as u64 + 1).unwrap_or(0));
+                }
+                Kind::VRposition => {
+                    let s = &slots[hi];
+                    let g = num_op!(s.real.v_rposition(k), s.model.clone().rposition(|x| x == k));
+                    self.trace.u(g.map(|x| x as u64 + 1).unwrap_or(0));
+                }
+                Kind::VFind => {
+                    let s = &slots[hi];
+                    item_op!(s.real.v_find(k), s.model.clone().find(|x| *x == k))
+                }
+                Kind::VRfind => {
+                    let s = &slots[hi];
+                    item_op!(s.real.v_rfind(k), s.model.clone().rfind(|x| *x == k))
+                }
+                Kind::Clone => {
                     if slots.len() < MAX_HANDLES {
                         let s = &slots[hi];
                         let real = catch(|| s.real.dup()).map_err(|p| fail("panic", "no panic".into(), format!("panic: {}", p)))?;
@@ -709,7 +921,7 @@ impl<'a> Exec<'a> {
                         self.note(|| format!("{} -> handle {}", op.line(), slots.len() - 1));
                     }
                 }
-                Op::Iter(_) => {
+                Kind::Iter => {
                     let real = catch(|| (case.make)()).map_err(|p| fail("panic", "no panic".into(), format!("panic: {}", p)))?;
                     let ns = Slot { real, model: Model { lo: 0, hi: n }, consumed_back: false, parent: None };
                     if slots.len() < MAX_HANDLES {
@@ -724,7 +936,7 @@ impl<'a> Exec<'a> {
                     }
                     self.note(|| op.line());
                 }
-                Op::Drop(_) => {
+                Kind::Drop => {
                     if slots.len() > 1 {
                         slots.remove(hi);
                         for s in slots.iter_mut() {
@@ -798,6 +1010,61 @@ fn gen_k(rng: &mut Rng, n: usize, rem: usize, allow_huge: bool, huge_weight: u32
     }
 }
 
+fn advance_shadow(sh: &mut Vec<Model>, n: usize, h: usize, op: &Op) {
+    let k = op.k;
+    match op.kind {
+        Kind::Next => {
+            sh[h].next();
+        }
+        Kind::NextBack => {
+            sh[h].next_back();
+        }
+        Kind::Nth | Kind::SkipNext => {
+            sh[h].nth(k);
+        }
+        Kind::NthBack | Kind::RevNth | Kind::RevSkipNext => {
+            sh[h].nth_back(k);
+        }
+        Kind::StepBy => {
+            let _ = sh[h].by_ref().step_by(k).take(op.t).count();
+        }
+        Kind::DrainLast | Kind::DrainCount => {
+            let _ = sh[h].by_ref().count();
+        }
+        Kind::TakeBack => {
+            let _ = sh[h].by_ref().take(k).next_back();
+        }
+        Kind::SkipBack => {
+            let _ = sh[h].by_ref().skip(k).next_back();
+        }
+        Kind::EnumerateBack => {
+            let _ = sh[h].by_ref().enumerate().next_back();
+        }
+        Kind::StepByBack => {
+            let _ = sh[h].by_ref().step_by(k).next_back();
+        }
+        Kind::Clone => {
+            if sh.len() < MAX_HANDLES {
+                let c = sh[h].clone();
+                sh.push(c);
+            }
+        }
+        Kind::Drop => {
+            if sh.len() > 1 {
+                sh.remove(h);
+            }
+        }
+        Kind::Iter => {
+            if sh.len() < MAX_HANDLES {
+                sh.push(Model { lo: 0, hi: n });
+            } else {
+                sh[h] = Model { lo: 0, hi: n };
+            }
+        }
+        _ => {}
+    }
+}
+
 pub fn gen_ops(rng: &mut Rng, n: usize) -> (Vec<Op>, bool) {
     // swarm: each run enables its own subset of operation families and fault kinds
     let style = rng.weighted(&[40, 35, 25]) as u8;
@@ -806,6 +1073,8 @@ pub fn gen_ops(rng: &mut Rng, n: usize) -> (Vec<Op>, bool) {
     let allow_clone = rng.chance(70, 100);
     let allow_adapters = rng.chance(60, 100);
     let allow_back = rng.chance(85, 100);
+    let allow_by_value = rng.chance(50, 100);
+    let allow_len_adapters = rng.chance(50, 100);
     let keep_going_after_exhaustion = rng.chance(40, 100);
     let steps = rng.range(4, 40) as usize;
     let mut ops = Vec::with_capacity(steps + 2);
@@ -819,12 +1088,14 @@ pub fn gen_ops(rng: &mut Rng, n: usize) -> (Vec<Op>, bool) {
         let front = rng.usize_below(n + 1);
         let back = rng.usize_below(n - front + 1);
         if front > 0 {
-            ops.push(Op::Nth(0, front - 1));
-            sh[0].nth(front - 1);
+            let op = Op::with(Kind::Nth, 0, front - 1);
+            advance_shadow(&mut sh, n, 0, &op);
+            ops.push(op);
         }
         if back > 0 {
-            ops.push(Op::NthBack(0, back - 1));
-            sh[0].nth_back(back - 1);
+            let op = Op::with(Kind::NthBack, 0, back - 1);
+            advance_shadow(&mut sh, n, 0, &op);
+            ops.push(op);
         }
     }
     let mut i = 0;
@@ -832,96 +1103,59 @@ pub fn gen_ops(rng: &mut Rng, n: usize) -> (Vec<Op>, bool) {
         i += 1;
         let h = rng.usize_below(sh.len());
         let rem = sh[h].hi - sh[h].lo;
-        if rem == 0 && !keep_going_after_exhaustion {
+        if rem == 0 && !keep_going_after_exhaustion && rng.chance(60, 100) {
             // an exhausted handle: usually get a fresh one instead of hammering it
-            if rng.chance(60, 100) {
-                let op = Op::Iter(h);
-                if sh.len() < MAX_HANDLES {
-                    sh.push(Model { lo: 0, hi: n });
-                } else {
-                    sh[h] = Model { lo: 0, hi: n };
-                }
-                ops.push(op);
-                continue;
-            }
+            let op = Op::new(Kind::Iter, h);
+            advance_shadow(&mut sh, n, h, &op);
+            ops.push(op);
+            continue;
         }
+        let ad = |on: bool, w: u32| if on { w } else { 0 };
+        // same order as KINDS
         let w = [
-            30u32,                                   // next
-            if allow_back { 22 } else { 0 },         // next_back
-            22,                                      // nth
-            if allow_back { 12 } else { 0 },         // nth_back
-            4,                                       // len
-            3,                                       // size_hint
-            if allow_clone { 8 } else { 0 },         // clone
-            if allow_clone { 2 } else { 0 },         // drop
-            if allow_adapters { 7 } else { 0 },      // skip_next
-            if allow_adapters { 6 } else { 0 },      // step_by
-            if allow_adapters && allow_back { 4 } else { 0 }, // rev_nth
-            if allow_adapters && allow_back { 3 } else { 0 }, // rev_skip_next
-            if allow_adapters && style == 2 { 1 } else { 0 }, // last
-            if allow_adapters && style == 2 { 1 } else { 0 }, // count
-            1,                                       // debug_fmt
-            2,                                       // iter
+            30u32,                                       // next
+            ad(allow_back, 22),                          // next_back
+            22,                                          // nth
+            ad(allow_back, 12),                          // nth_back
+            4,                                           // len
+            3,                                           // size_hint
+            ad(allow_clone, 8),                          // clone
+            ad(allow_clone, 2),                          // drop
+            ad(allow_adapters, 7),                       // skip_next
+            ad(allow_adapters, 6),                       // step_by
+            ad(allow_adapters && allow_back, 4),         // rev_nth
+            ad(allow_adapters && allow_back, 3),         // rev_skip_next
+            ad(allow_adapters && style == 2, 1),         // last (drains)
+            ad(allow_adapters && style == 2, 1),         // count (drains)
+            1,                                           // debug_fmt
+            2,                                           // iter
+            ad(allow_len_adapters && allow_back, 5),     // take_back
+            ad(allow_len_adapters && allow_back, 5),     // skip_back
+            ad(allow_len_adapters && allow_back, 4),     // enumerate_back
+            ad(allow_len_adapters && allow_back, 4),     // step_by_back
+            ad(allow_by_value, 3),                       // v_last
+            ad(allow_by_value, 3),                       // v_count
+            ad(allow_by_value, 3),                       // v_fold
+            ad(allow_by_value, 3),                       // v_rfold
+            ad(allow_by_value, 2),                       // v_collect
+            ad(allow_by_value, 2),                       // v_rev_collect
+            ad(allow_by_value, 2),                       // v_position
+            ad(allow_by_value, 2),                       // v_rposition
+            ad(allow_by_value, 2),                       // v_find
+            ad(allow_by_value, 2),                       // v_rfind
         ];
-        let kind = rng.weighted(&w);
-        let op = match kind {
-            0 => Op::Next(h),
-            1 => Op::NextBack(h),
-            2 => Op::Nth(h, gen_k(rng, n, rem, allow_huge, huge_weight, style)),
-            3 => Op::NthBack(h, gen_k(rng, n, rem, allow_huge, huge_weight, style)),
-            4 => Op::Len(h),
-            5 => Op::SizeHint(h),
-            6 => Op::Clone(h),
-            7 => Op::Drop(h),
-            8 => Op::SkipNext(h, gen_k(rng, n, rem, allow_huge, huge_weight, style)),
-            9 => Op::StepBy(h, gen_k(rng, n, rem, allow_huge, huge_weight, style).max(1), rng.range(1, 4) as usize),
-            10 => Op::RevNth(h, gen_k(rng, n, rem, allow_huge, huge_weight, style)),
-            11 => Op::RevSkipNext(h, gen_k(rng, n, rem, allow_huge, huge_weight, style)),
-            12 => Op::Last(h),
-            13 => Op::Count(h),
-            14 => Op::DebugFmt(h),
-            _ => Op::Iter(h),
-        };
-        // advance the shadow
-        match &op {
-            Op::Next(_) => {
-                sh[h].next();
+        let kind = KINDS[rng.weighted(&w)].0;
+        let mut op = Op::new(kind, h);
+        if op.k_is_count() {
+            op = Op::with(kind, h, gen_k(rng, n, rem, allow_huge, huge_weight, style));
+            if kind == Kind::StepBy {
+                op.t = rng.range(1, 4) as usize;
             }
-            Op::NextBack(_) => {
-                sh[h].next_back();
-            }
-            Op::Nth(_, k) | Op::SkipNext(_, k) => {
-                sh[h].nth(*k);
-            }
-            Op::NthBack(_, k) | Op::RevNth(_, k) | Op::RevSkipNext(_, k) => {
-                sh[h].nth_back(*k);
-            }
-            Op::StepBy(_, k, t) => {
-                let _ = sh[h].by_ref().step_by(*k).take(*t).count();
-            }
-            Op::Last(_) | Op::Count(_) => {
-                let _ = sh[h].by_ref().count();
-            }
-            Op::Clone(_) => {
-                if sh.len() < MAX_HANDLES {
-                    let c = sh[h].clone();
-                    sh.push(c);
-                }
-            }
-            Op::Drop(_) => {
-                if sh.len() > 1 {
-                    sh.remove(h);
-                }
-            }
-            Op::Iter(_) => {
-                if sh.len() < MAX_HANDLES {
-                    sh.push(Model { lo: 0, hi: n });
-                } else {
-                    sh[h] = Model { lo: 0, hi: n };
-                }
-            }
-            _ => {}
+        } else if op.has_k() {
+            // target item of find/position: any item index, sometimes one past the end
+            op.k = rng.usize_below(n + 2);
         }
+        advance_shadow(&mut sh, n, h, &op);
         ops.push(op);
     }
     (ops, jumped)
@@ -955,20 +1189,19 @@ fn minimise(case: &Case, ops: Vec<Op>, sig: &str) -> Vec<Op> {
     let mut ops = ddmin(ops, |c| same(c));
     // argument shrinking, class-preserving because the signature carries the k size class
     for i in 0..ops.len() {
-        if let Some(k) = ops[i].k() {
+        if ops[i].has_k() {
+            let k = ops[i].k;
             let cands: Vec<usize> = if k > 64 {
                 vec![usize::MAX, usize::MAX - 1, usize::MAX / 2, 65]
             } else {
-                let mut v: Vec<usize> = (0..k).collect();
-                v.truncate(8);
-                v
+                (0..k.min(8)).collect()
             };
             for c in cands {
                 if c == k {
                     break;
                 }
                 let mut cand = ops.clone();
-                cand[i] = ops[i].with_k(c);
+                cand[i] = Op { k: if matches!(ops[i].kind, Kind::StepBy | Kind::StepByBack) { c.max(1) } else { c }, ..ops[i].clone() };
                 if same(&cand) {
                     ops = cand;
                     break;
@@ -976,10 +1209,9 @@ fn minimise(case: &Case, ops: Vec<Op>, sig: &str) -> Vec<Op> {
             }
         }
         // handle renumbering towards 0
-        let h = ops[i].handle();
-        if h != 0 {
+        if ops[i].h != 0 {
             let mut cand = ops.clone();
-            cand[i] = Op::parse(&ops[i].line().replacen(&format!(" {}", h), " 0", 1)).unwrap_or(ops[i].clone());
+            cand[i] = Op { h: 0, ..ops[i].clone() };
             if same(&cand) {
                 ops = cand;
             }
@@ -1090,7 +1322,7 @@ pub fn main(cases: &'static [Case]) -> ! {
         }
     }
     // ops that need a handle to operate on (every kind applies in every cursor state)
-    let reachable_state_ops_small = reachable_states_small * OP_KINDS.len() as u64;
+    let reachable_state_ops_small = reachable_states_small * KINDS.len() as u64;
 
     // minimise + write replay files for each distinct signature
     let mut candidates = Vec::new();
